@@ -37,7 +37,11 @@ RULE = ("cases = (valid MNTM with 1–3 tapes, deterministic or not, input, "
         "number n of next() calls); corpus (F9: left move from the leftmost cell; F11: empty transition list; "
         "right moves past the end; all three directions on every tape), bounded-exhaustive tiny machines "
         "(1 tape: all tables with ≤2 rows over 2 states + final and {0,#}; 2 tapes: all one-row tables over "
-        "{0,#}), then shaped random machines — all of these with tape alphabets and inputs without '^' and '_' — "
+        "{0,#}), then shaped random machines, machines whose state names have MIXED mutually unorderable types (ints, "
+        "strs, tuples, frozensets in one machine; nondeterministic with dead ends, so rejected inputs leave several "
+        "branches stuck in differently-typed states), and machines built under allow_mutable_automata=True from plain "
+        "dict/list/set containers (transition results stay lists; option on or off again during the runs; judged on a "
+        "frozen twin = the definition as built) — all of these with tape alphabets and inputs without '^' and '_' — "
         "and the family mark_alphabets (4 fixed probes + random machines over 9 tape alphabets containing '^' / "
         "'_' and/or inputs containing them: the open finding C17:mark-symbol-in-alphabet-or-input); a case is "
         "non-trivial when the simulation yields ≥3 configurations; distinct = distinct (definition, input, n)")
